@@ -65,7 +65,7 @@ CLAIMED = {
          'Generated graphs x schedules in which scripts stay running as long as possible.',
          'One-shot runs without failures.', 'DESIGN.md 4/C17'),
 }
-ENGINE = {'C05':'BB+FUZZ','C16':'INC','C18':'BB','C20':'SIM+BB','C02':'INC','C03':'INC','C09':'INC','C13':'INC','C14':'INC+FUZZ','C15':'INC','C19':'INC','C10':'BB','C12':'BB','C04':'SIM+BB','C01':'SIM+BB','C07':'SIM+BB','C08':'SIM+BB','C11':'SIM+BB','C17':'SIM+BB'}
+ENGINE = {'C15':'INC','C16':'INC+BB','C05':'BB+FUZZ','C18':'BB','C20':'SIM+BB','C02':'INC','C03':'INC','C09':'INC','C13':'INC','C14':'INC+FUZZ','C15':'INC','C19':'INC','C10':'BB','C12':'BB','C04':'SIM+BB','C01':'SIM+BB','C07':'SIM+BB','C08':'SIM+BB','C11':'SIM+BB','C17':'SIM+BB'}
 ALL = [json.loads(l)['id'] for l in open('/verif/properties.jsonl')]
 NA_REASON = 'check not built yet in this session (work in progress; to be decided with property-based testing as designed in DESIGN.md)'
 
